@@ -31,6 +31,11 @@ rule("C07.ac", "the columns an asset's restriction rows are embedded in are the 
 rule("C07.j", "asset rows are embedded into the asset's own columns: index set, matrix, right-hand side and letters are selected "
               "by the same loop variable", floor=3)
 rule("C18.a", "every constraint appended for a row class is paired with the counter increment that records its position", floor=4)
+rule("C16.p", "a structured asset re-types only the rows it hides: the 'type' column is written for the rows at internal nodes (type 'i'); every "
+              "other row keeps the type its asset gave it - not every row at an external node is a dispatch row (the scale variable of a scaled "
+              "asset is of type 'size')", floor=1)
+rule("C18.f", "a dual is reported under the node (and step) of its own record: the label of a nodal price is built from the element of "
+              "map_nodal_restr that is paired with the dual, not from another enumeration of the nodes", floor=1)
 rule("C18.b", "(step, node) records are in lockstep with the N letters of the assembled problem: no asset returns rows under "
               "letter N, the record order (step, node) is the one the report uses, duals and records share one counter", floor=4)
 
@@ -68,7 +73,7 @@ rule("C01.l", "a wrapper declares every node of the asset it wraps: the nodes it
               "in the report)", floor=1, props=["C01", "C16"])
 
 
-@analysis("nodal", ["C01.a", "C01.b", "C01.d", "C01.e", "C01.f", "C01.h", "C01.i", "C07.h", "C07.j", "C18.a", "C18.b", "C01.l", "C07.ac"])
+@analysis("nodal", ["C01.a", "C01.b", "C01.d", "C01.e", "C01.f", "C01.h", "C01.i", "C07.h", "C07.j", "C18.a", "C18.b", "C01.l", "C07.ac", "C18.f", "C16.p"])
 def run(ctx):
     p = ctx.p
     # ---- C01.l nodes a wrapper declares
@@ -512,11 +517,61 @@ def run(ctx):
            "the inner portfolio is set up without skip_nodes: external nodes would be balanced inside the structured asset AND by the "
            "outer portfolio (twice)", node=sa.node, ok_detail=au.U(skip) if skip is not None else "")
     if skip is not None:
-        ok = bool(tests) and all(au.U(c.comparators[0]) == au.U(skip) and isinstance(c.ops[0], ast.NotIn) for _, c, _ in tests)
+        # vectorised idiom: a selector `~<nodes>.isin(<skip>)` (possibly & notnull()) used to write the node / type columns
+        ffs = ctx.flow(sa)
+        vec = []
+        for st in au.walk_stmts(sa.body):
+            if not (isinstance(st, ast.Assign) and isinstance(st.targets[0], ast.Subscript)):
+                continue
+            tcol = au.const_str(st.targets[0].slice)
+            loc_col = None
+            if isinstance(st.targets[0].value, ast.Attribute) and st.targets[0].value.attr == "loc" and isinstance(st.targets[0].slice, ast.Tuple) and len(st.targets[0].slice.elts) == 2:
+                loc_col = au.const_str(st.targets[0].slice.elts[1])
+            col = tcol or loc_col
+            if col not in ("node", "type"):
+                continue
+            isins = []
+            for x in list(au.walk_local(st.value)) + list(au.walk_local(st.targets[0])):
+                e = ctx.resolve(sa, x, st) if isinstance(x, ast.Name) else x
+                for y in au.walk_local(e):
+                    if isinstance(y, ast.Call) and au.method_name(y) == "isin" and y.args:
+                        isins.append(y)
+            if isins:
+                vec.append((st, col, isins))
+        if tests:
+            ok = all(au.U(c.comparators[0]) == au.U(skip) and isinstance(c.ops[0], ast.NotIn) for _, c, _ in tests)
+            shown = [au.U(c) for _, c, _ in tests]
+        elif vec:
+            ok = all(au.U(y.args[0]) == au.U(skip) for _, _, ys in vec for y in ys)
+            shown = sorted({au.short(y, 40) for _, _, ys in vec for y in ys})
+        else:
+            ok, shown = None, []
         ctx.ob("C01.f", sa, "renamed / internal nodes are the complement of the skip set", ok,
                "nodes are renamed and marked internal under the test %s while the inner portfolio skips %s: a node must be balanced "
-               "exactly once (inside if internal, outside if external)" % ([au.U(c) for _, c, _ in tests], au.U(skip)),
-               node=(tests[0][0] if tests else sa.node))
+               "exactly once (inside if internal, outside if external)" % (shown, au.U(skip)) if ok is False else
+               "neither `if n not in <skip set>:` nor a selector built with .isin(<skip set>) was found around the writes of the node column",
+               node=(tests[0][0] if tests else (vec[0][0] if vec else sa.node)))
+        # ---- C16.p: the type of a row is touched only where the row is internal
+        type_writes = [st for st in au.walk_stmts(sa.body) if isinstance(st, ast.Assign) and isinstance(st.targets[0], ast.Subscript) and (
+            au.const_str(st.targets[0].slice) == "type" or (isinstance(st.targets[0].slice, ast.Tuple) and len(st.targets[0].slice.elts) == 2
+                                                           and au.const_str(st.targets[0].slice.elts[1]) == "type"))]
+        if not type_writes:
+            ctx.ob("C16.p", sa, "type of internal rows", None, "no write of the 'type' column found")
+        for st in type_writes:
+            whole = au.const_str(st.targets[0].slice) == "type"     # frame['type'] = ... : every row is written
+            keeps = False
+            if whole:
+                v = st.value
+                # np.where(internal, 'i', <old column>) / old.where(~internal, 'i') / old.mask(internal, 'i') keep the other rows
+                if isinstance(v, ast.Call) and au.method_name(v) == "where" and len(v.args) == 3:
+                    keeps = any(isinstance(y, ast.Subscript) and au.const_str(y.slice) == "type" for a in v.args[1:] for y in au.walk_local(ctx.resolve(sa, a, st)))
+                elif isinstance(v, ast.Call) and au.method_name(v) in ("mask", "where") and isinstance(v.func, ast.Attribute):
+                    keeps = any(isinstance(y, ast.Subscript) and au.const_str(y.slice) == "type" for y in au.walk_local(ctx.resolve(sa, v.func.value, st)))
+            ctx.ob("C16.p", sa, au.short(st, 80), (not whole) or keeps,
+                   "the 'type' column is rewritten for *every* row: rows at external nodes are not all dispatch rows - the scale variable of a scaled asset "
+                   "inside the structure (type 'size', attached to the first node of its base asset) becomes a dispatch variable and enters the nodal "
+                   "balance of that node as phantom inflow (value -582 instead of -672 of the flat portfolio)", node=st,
+                   ok_detail="only rows selected as internal are re-typed")
 
     # ================================================================= C01.h factor <-> node
     mc = p.cls("MultiCommodityContract").methods.get("setup_optim_problem")
@@ -606,6 +661,35 @@ def run(ctx):
                 ok = bool(subs) and all(au.U(s.slice) == cnt for s in subs)
                 ctx.ob("C18.b", io_fn, "duals['N'] indexed by the record counter", ok,
                        "the k-th record must be paired with the k-th nodal dual; found index %s with counter %s" % ([au.U(s.slice) for s in subs], cnt), node=lp)
+
+
+        # ---- C18.f: the node (and the step) under which a dual is reported come from the record that is paired with it
+        labels = []
+        for st in au.walk_stmts(io_fn.body):
+            for x in au.walk_own(st):
+                if isinstance(x, ast.BinOp) and isinstance(x.op, ast.Add) and any(
+                        (au.const_str(y) or "").startswith("nodal price") for y in (x.left, x.right)):
+                    labels.append((st, x))
+        if not labels:
+            ctx.ob("C18.f", io_fn, "label of a nodal price", None, "no label 'nodal price: ' + <node> found in the report")
+        orgio = ctx.origins(io_fn, values_only=True)
+        for st, x in labels:
+            other = x.right if au.const_str(x.left) is not None else x.left
+            nodes_ = orgio.nodes(other, st) + [other]
+            from_record = any("map_nodal_restr" in au.U(y) for y in nodes_ if isinstance(y, (ast.Attribute, ast.Call, ast.Subscript, ast.Name))) or any(
+                isinstance(a, ast.For) and "map_nodal_restr" in au.U(a.iter) and (set(au.target_names(a.target)) & au.names_in(other)) for a in p.ancestors(x))
+            # comprehension variables: label built in [... for n in <iter>]
+            comp = [a for a in p.ancestors(x) if isinstance(a, (ast.ListComp, ast.GeneratorExp))]
+            for cmp_ in comp:
+                for g in cmp_.generators:
+                    if set(au.target_names(g.target)) & au.names_in(other):
+                        from_record = "map_nodal_restr" in au.U(g.iter) or any("map_nodal_restr" in au.U(y) for y in orgio.nodes(g.iter, st))
+            ctx.ob("C18.f", io_fn, au.short(x, 60), from_record,
+                   "the node in the label %s does not come from the (step, node) record that is paired with the dual: the k-th dual belongs to the "
+                   "k-th record, whatever order the portfolio lists its nodes in - nodes enumerated another way (portf.nodes, a factorisation by "
+                   "first appearance) agree with the records only while every node has rows from the first step on: in a split optimisation with a "
+                   "node that becomes active on day 2 the power prices are reported as gas prices" % au.short(x, 40), node=x,
+                   ok_detail="node taken from the record")
 
 
 def _returns_letter_n(ctx, L, fn, seen):
